@@ -490,6 +490,10 @@ class Skip(Exception):
     pass
 
 
+class PostCall(Exception):
+    """snapshots / comparison after the call raised: the arguments or the result are in an unusable state"""
+
+
 def deep_snap(x, depth=0):
     from evo.core.trajectory import PosePath3D
     from evo.core.result import Result
@@ -910,65 +914,68 @@ def frame_case(ctx, qual, cls, fn, variant, tmp):
             call = lambda: fn(recv, **args)   # noqa: E731
         else:
             call = lambda: fn(**args)   # noqa: E731
-    before = {k: deep_snap(v) for k, v in args.items()}
-    before_recv = deep_snap(recv) if check_recv else None
-    status = "returned"
-    result = None
     try:
-        with warnings.catch_warnings():
-            warnings.simplefilter("ignore")
-            stdout = sys.stdout
-            sys.stdout = io.StringIO()
-            try:
-                result = call()
-            finally:
-                sys.stdout = stdout
-    except Exception as e:  # noqa: BLE001
-        status = "raised:" + type(e).__name__
-    if qual.startswith("evo.tools.plot."):
-        import matplotlib.pyplot as plt
-        plt.close("all")
-    for hd in fac.open_handles:
+        before = {k: deep_snap(v) for k, v in args.items()}
+        before_recv = deep_snap(recv) if check_recv else None
+        status = "returned"
+        result = None
         try:
-            hd.close()
-        except Exception:  # noqa: BLE001
-            pass
-    changed = [k for k, v in args.items() if deep_snap(v) != before[k]]
-    if check_recv and deep_snap(recv) != before_recv:
-        changed.append("self")
-    # ---- derived objects must be independent of their sources (generic over the object graph)
-    shared, touched = [], []
-    short = qual.rsplit(".", 1)[-1]
-    roots = [("result", result)]
-    if cls is not None and not isinstance(fn, property) and short in MUTATORS and short not in BYREF:
-        roots.append(("self", recv))          # the receiver has been operated on with these arguments: it is derived from them
-    for rname, root in roots:
-        if root is None or short in BYREF:
-            continue
-        d_arr, d_obj = graph_of(root)
-        if not d_arr:
-            continue
-        sources = [(k, v) for k, v in args.items()]
-        # the receiver is a source of the *result* only when the result is object-valued (trajectories, Results): plain
-        # arrays / lists returned by accessors (positions_xyz, poses_se3, …) are views of the receiver by design
-        if rname == "result" and recv is not None and d_obj and short not in BYREF_RECV:
-            sources.append(("self", recv))
-        src = []
-        for k, v in sources:
-            a, _ = graph_of(v)
-            if a:
-                src.append((k, v, a))
-        for k, v, a in src:
-            if any(x is y or np.shares_memory(x, y) for x in d_arr for y in a):
-                shared.append(f"{rname}<-{k}")
-        if not src:
-            continue
-        post = {k: deep_snap(v) for k, v, _ in src}
-        mutate_in_place(root)
-        for k, v, _ in src:
-            if deep_snap(v) != post[k]:
-                touched.append(f"{rname}<-{k}")
-    return status, changed, shared, touched, args
+            with warnings.catch_warnings():
+                warnings.simplefilter("ignore")
+                stdout = sys.stdout
+                sys.stdout = io.StringIO()
+                try:
+                    result = call()
+                finally:
+                    sys.stdout = stdout
+        except Exception as e:  # noqa: BLE001
+            status = "raised:" + type(e).__name__
+        if qual.startswith("evo.tools.plot."):
+            import matplotlib.pyplot as plt
+            plt.close("all")
+        for hd in fac.open_handles:
+            try:
+                hd.close()
+            except Exception:  # noqa: BLE001
+                pass
+        changed = [k for k, v in args.items() if deep_snap(v) != before[k]]
+        if check_recv and deep_snap(recv) != before_recv:
+            changed.append("self")
+        # ---- derived objects must be independent of their sources (generic over the object graph)
+        shared, touched = [], []
+        short = qual.rsplit(".", 1)[-1]
+        roots = [("result", result)]
+        if cls is not None and not isinstance(fn, property) and short in MUTATORS and short not in BYREF:
+            roots.append(("self", recv))          # the receiver has been operated on with these arguments: it is derived from them
+        for rname, root in roots:
+            if root is None or short in BYREF:
+                continue
+            d_arr, d_obj = graph_of(root)
+            if not d_arr:
+                continue
+            sources = [(k, v) for k, v in args.items()]
+            # the receiver is a source of the *result* only when the result is object-valued (trajectories, Results): plain
+            # arrays / lists returned by accessors (positions_xyz, poses_se3, …) are views of the receiver by design
+            if rname == "result" and recv is not None and d_obj and short not in BYREF_RECV:
+                sources.append(("self", recv))
+            src = []
+            for k, v in sources:
+                a, _ = graph_of(v)
+                if a:
+                    src.append((k, v, a))
+            for k, v, a in src:
+                if any(x is y or np.shares_memory(x, y) for x in d_arr for y in a):
+                    shared.append(f"{rname}<-{k}")
+            if not src:
+                continue
+            post = {k: deep_snap(v) for k, v, _ in src}
+            mutate_in_place(root)
+            for k, v, _ in src:
+                if deep_snap(v) != post[k]:
+                    touched.append(f"{rname}<-{k}")
+        return status, changed, shared, touched, args
+    except Exception as e:  # noqa: BLE001
+        raise PostCall(f"{type(e).__name__}: {str(e)[:120]}")
 
 
 def run_frames(ctx):
@@ -984,6 +991,10 @@ def run_frames(ctx):
             case = {"part": "B", "callable": qual, "variant": v}
             try:
                 status, changed, shared, touched, args = frame_case(ctx, qual, cls, fn, v, tmp)
+            except PostCall as e:
+                ctx.fail(case, "object-unusable", f"{qual}: snapshots / independence check after the call raised {e}",
+                         {"callable": qual.rsplit(".", 1)[-1]})
+                continue
             except Skip as e:
                 why[qual] = str(e)
                 if v >= 2:
@@ -1043,7 +1054,12 @@ def evaluate(ctx, cases):
             replay_frame(ctx, c)
             impls.append(None)
             continue
-        im = run_scenario(c)
+        try:
+            im = run_scenario(c)
+        except Exception as e:  # noqa: BLE001   (a finding about this case, never a tool error of the whole run)
+            im = None
+            ctx.fail(c, "object-unusable", f"{c['deriv']}: deriving / mutating / re-reading raised {type(e).__name__}: {str(e)[:120]}",
+                     {"deriv": c["deriv"]})
         impls.append(im)
         if im is not None:
             idx.append(j)
@@ -1053,7 +1069,10 @@ def evaluate(ctx, cases):
     for j, c in enumerate(cases):
         if c.get("part") == "B":
             continue
-        judge_scenario(ctx, c, impls[j], om.get(j, ""))
+        try:
+            judge_scenario(ctx, c, impls[j], om.get(j, ""))
+        except Exception as e:  # noqa: BLE001
+            ctx.mismatch(c, f"comparison with the heap model raised {type(e).__name__}: {str(e)[:120]}")
 
 
 def shrink(case):
